@@ -329,6 +329,19 @@ fn long_pin_script(r: &mut Rng, cap: usize) -> (Vec<Op>, u32) {
             }
         }
         ops.push(Op::Get(0));
+        // read the entries that are still pinned (by now they have been found pinned by the
+        // eviction and are parked) - a hit on a parked entry must not change its accounting -
+        // and give maintenance a few more writes to drain those hits
+        if r.chance(1, 2) {
+            for h in &held {
+                ops.push(Op::Get(*h));
+            }
+            for _ in 0..(cap + 2) {
+                let c = noise0 + (nz % noise_n);
+                nz += 1;
+                ops.push(Op::Put(c, 7));
+            }
+        }
         while held.len() > hold {
             ops.push(Op::Unpin(held.pop_front().unwrap()));
         }
